@@ -53,6 +53,25 @@ type logDef struct {
 	key  *pki.Key
 	id   string // base64(sha256(spki))
 	idb  [32]byte
+	// aliasOf != nil: id is another spelling of aliasOf's log ID that a lenient base64 decoder maps
+	// to the same 32 bytes. The witness may refuse it as unknown, or treat it as that log in every
+	// respect (one history); it must not open a second history for the log.
+	aliasOf *logDef
+}
+
+const b64alpha = "ABCDEFGHIJKLMNOPQRSTUVWXYZabcdefghijklmnopqrstuvwxyz0123456789+/"
+
+func aliases(l *logDef) []*logDef {
+	// 32 bytes -> 43 symbols + "=": the last symbol carries two unused bits; setting one keeps the decoded bytes
+	i := strings.IndexByte(b64alpha, l.id[42])
+	bits := l.id[:42] + string(b64alpha[i|1]) + "="
+	if i&1 == 1 {
+		bits = l.id[:42] + string(b64alpha[i|2]) + "="
+	}
+	return []*logDef{
+		{name: l.name + "(id with non-zero padding bits)", key: l.key, id: bits, idb: l.idb, aliasOf: l},
+		{name: l.name + "(id followed by a newline)", key: l.key, id: l.id + "\n", idb: l.idb, aliasOf: l},
+	}
 }
 
 func mkLog(name, key string) *logDef {
@@ -555,6 +574,13 @@ func (c *checker) checkOp(in *inst, s refState, o op, viaHTTP bool, path []op) r
 		}
 		return true
 	}
+	if o.Log != nil && o.Log.aliasOf != nil {
+		if res.err != nil && same(after, before) {
+			c.count("alias-id-refused")
+			return s
+		}
+		o.Log = o.Log.aliasOf // accepted: from here on it must be that log in every respect
+	}
 	switch o.Kind {
 	case "update":
 		ex, next := refUpdate(s, o)
@@ -663,8 +689,16 @@ func TestCheck(t *testing.T) {
 		}
 		alphabet = append(alphabet, op{Kind: "getsth", Log: id})
 	}
+	for _, al := range aliases(logA) {
+		for _, cd := range cands {
+			for _, pk := range []string{"correct", "empty"} {
+				alphabet = append(alphabet, op{Kind: "update", Log: al, Cand: cd, Proof: pk})
+			}
+		}
+		alphabet = append(alphabet, op{Kind: "getsth", Log: al})
+	}
 	alphabet = append(alphabet, op{Kind: "getlogs"})
-	r.Rule("explicit-state BFS: state = stored raw STH per log (read back from the witness database); every state is reached by replaying its shortest operation path on a fresh real witness over a fresh sqlite database; from every state every operation of the alphabet is run on the real code (directly and through the HTTP server) and compared with a reference witness (map + RFC 6962 consistency verification by ref/merkle). Alphabet: Update x {log A, log B, unknown log id} x candidate STHs (honest sizes 0..5, fork sizes 3..5 diverging at leaf 2, other timestamp, embedded id right/wrong, flipped signature, other log's key, unknown key, log B sizes 0..2, non-JSON) x 9 proof kinds (correct, empty, for m+1, for m-1, other family, truncated, padded, random, duplicated hash), GetSTH per id, GetLogs")
+	r.Rule("explicit-state BFS: state = stored raw STH per log (read back from the witness database); every state is reached by replaying its shortest operation path on a fresh real witness over a fresh sqlite database; from every state every operation of the alphabet is run on the real code (directly and through the HTTP server) and compared with a reference witness (map + RFC 6962 consistency verification by ref/merkle). Alphabet: Update x {log A, log B, unknown log id, two alias spellings of log A's id (non-zero base64 padding bits, trailing newline; proofs correct/empty)} x candidate STHs (honest sizes 0..5, fork sizes 3..5 diverging at leaf 2, other timestamp, embedded id right/wrong, flipped signature, other log's key, unknown key, log B sizes 0..2, non-JSON) x 9 proof kinds (correct, empty, for m+1, for m-1, other family, truncated, padded, random, duplicated hash), GetSTH per id, GetLogs")
 	r.Assume("the witness keeps no state outside its database table, so a state may be restored by rewriting the rows between transitions of one expansion (each state itself is first reached by replay)",
 		"a candidate is a genuine extension iff the held tree's leaves are a prefix of its leaves (two-family construction); the reference applies an update iff the supplied proof verifies under RFC 6962")
 	c := &checker{r: r}
